@@ -2,15 +2,14 @@ import QF.Core.Upper
 /-!
 # C18 — ilike's upper-casing
 
-`toUpper_partial`: the custom `ToUpper` (first loop to the first changed rune, copying loop
-with the single-byte shortcut and buffer growth) returns `map up s` for every string, every
-case mapping `up` and every buffer size, **provided no rune's upper case is U+0080** — the
-exclusion forced by `r <= utf8.RuneSelf`.
+`toUpper_spec`: the custom `ToUpper` (first loop to the first changed rune, copying loop with the single-byte
+shortcut and buffer growth) returns `encode (map up s)` for every string, every case mapping `up` and every
+buffer size. The mirror follows the code after the repair `r < utf8.RuneSelf`; with the original `<=` the theorem
+needed the hypothesis that no rune's upper case is U+0080 (that was the defect).
 -/
 namespace QF.Props.C18
 
-theorem toUpper_partial (up : Char → Char) (bufLen : Nat) (s : List Char)
-    (h : ∀ c, c ∈ s → (up c).val ≠ 128) : U.toUpper up bufLen s = U.spec up s :=
-  U.toUpper_spec' up bufLen s h
+theorem toUpper_spec (up : Char → Char) (bufLen : Nat) (s : List Char) : U.toUpper up bufLen s = U.spec up s :=
+  U.toUpper_spec' up bufLen s
 
 end QF.Props.C18
